@@ -5,7 +5,7 @@ ENGINES = [
          kind_free_text="two real ShipConnections + man-in-the-middle transport inside a testing/synctest bubble (virtual clock); rapid-generated scripts, JSON replay"),
     dict(name="wsfault", path="harness/wsfault", serves_properties=["C06", "C08", "C12", "C13", "C20"],
          kind_free_text="real ws.WebsocketConnection over gorilla/websocket over an in-memory fault-injecting net.Conn pair, synctest bubble"),
-    dict(name="hubnet", path="harness/hubnet", serves_properties=["C01", "C05", "C09", "C10", "C11", "C15", "C17", "C20"],
+    dict(name="hubnet", path="harness/hubnet", serves_properties=["C01", "C05", "C09", "C10", "C11", "C15", "C17", "C18", "C20"],
          kind_free_text="2-3 real hub.Hub instances over loopback TLS+websocket, real MdnsManager on a harness mDNS fabric, per-pair TCP proxies; real time"),
     dict(name="hubsim", path="harness/hubsim", serves_properties=["C18"],
          kind_free_text="real hub.Hub inside a synctest bubble, harness plays the SHIP connections"),
@@ -102,7 +102,8 @@ META.update({
                 text="Differential/metamorphic: the same scenario on two fresh pairs of real hubs with canonical vs re-formatted SKI must settle in the same observable state.",
                 technique=_PBT + "metamorphic / differential twin execution"),
     "C18": dict(engine="hubsim", design_ref="DESIGN.md 6/C18", note="trusted: the harness plays the SHIP connections through the hub's exported entry points; virtual clock",
-                text="Generated notification histories on a real hub in a bubble; last notification equals the hub's own answer, delivered order is a subsequence of the hub's state sequence.",
+                text="Generated notification histories on a real hub in a bubble; last notification equals the hub's own answer, delivered order is a subsequence of the hub's state sequence; "
+                     "plus a hub-level run in which real connections (double connections, reconnects, late approvals, cancels) make the changes.",
                 technique=_PBT + "generated histories and scheduler settings, history-order oracle"),
     "C20": dict(engine="hubnet", design_ref="DESIGN.md 6/C20", note="the race detector only reports races on executed interleavings",
                 text="All concurrent engines under the Go race detector with generated concurrent operation mixes; every report is a violation unless its key is a listed finding.",
